@@ -33,6 +33,8 @@
 (*  shiftr [] (generic doubles)  obs [k, mode, err, fin, on, ge0, lt360, gem180, le180] *)
 (*         on: result = input - shift + k*360 to rounding (4 ulp of the operands)   *)
 (*  xyz    [u]                                     obs [k, err, fin, img, ul]       *)
+(*  world  [steps, tol9, rottol9]  a session run in ONE fresh process               *)
+(*                                                obs [k, err, fin, lx, dw, ds]    *)
 EXTENDS Frames, Json, IOUtils
 
 VARIABLES blk, tid
